@@ -79,8 +79,8 @@ pub fn tier(name: &str) -> Tier {
             sizes: PoolSizes { gen_per_ev: 600, cross_texts: 110, malformed_per_ev: 60, extreme_per_ev: 100, sibling_families_per_ev: 40, pair_samples_per_ev: 120, all_pairs: false, max_corpus: 300 },
             recheck_every: 7,
             det_seeds: 200,
-            short_runs: 40_000,
-            short_budget_s: 22,
+            short_runs: 60_000,
+            short_budget_s: 34,
             wide_runs: 1_500,
             long_runs: 32,
             long_calls: 8_000,
